@@ -344,6 +344,30 @@ def can_fail(node):
     return bool((node.get('plan') or {}).get('fail'))
 
 
+def pessimistic_tags(prog):
+    """Tags to assume when any node may fail (collaborator faults turn into node failures)."""
+    t = set(analyze(prog))
+    out = set()
+    if 'switch_in_candidate' in t:
+        out.add('cand_fail_via_switch')
+    if 'rec_in_candidate' in t:
+        out.add('cand_fail_in_rec')
+    cons = consumers(prog)
+    reach = reachable(prog)
+    for nid in reach:
+        for pname, m in prog['nodes'][nid].get('params', []):
+            if m[0] != 'oneof':
+                continue
+            for c in m[1]:
+                clo = ancestors(prog, c) | {c}
+                for n in clo:
+                    if n == prog['input']:
+                        continue
+                    if any(cc in reach and cc not in clo for cc, _, _ in cons[n]):
+                        out.add('cand_fail_shared')
+    return out
+
+
 def analyze(prog):
     """Hostile-family tags (structural)."""
     tags = set()
